@@ -115,32 +115,100 @@ func runC12(r *Run) {
 				}
 			}
 		}
+		// the cookie literal handed to c.Cookie(&Cookie{…}) at a call site: its constant fields
+		cookieLit := func(ci ssa.CallInstruction) (fields map[string]ssa.Value, ok bool) {
+			n := calleeName(ci.Common())
+			if !(strings.HasSuffix(n, "DefaultCtx).Cookie") || strings.HasSuffix(n, ".Ctx).Cookie")) {
+				return nil, false
+			}
+			al, isAlloc := ci.Common().Args[len(ci.Common().Args)-1].(*ssa.Alloc)
+			if !isAlloc {
+				return nil, false
+			}
+			fields = map[string]ssa.Value{}
+			for _, ref := range *al.Referrers() {
+				if fa, isFA := ref.(*ssa.FieldAddr); isFA {
+					if fv := fieldVar(fa.X.Type(), fa.Field); fv != nil {
+						for _, r2 := range *fa.Referrers() {
+							if st, isSt := r2.(*ssa.Store); isSt && st.Addr == ssa.Value(fa) {
+								fields[fv.Name()] = st.Val
+							}
+						}
+					}
+				}
+			}
+			return fields, true
+		}
+		isFlashName := func(v ssa.Value) bool {
+			str, ok := constString(asConst(v))
+			return ok && str == "fiber_flash"
+		}
+		pathOf := func(fields map[string]ssa.Value) string {
+			if v, ok := fields["Path"]; ok {
+				if str, ok := constString(asConst(v)); ok && str != "" {
+					return str
+				}
+				return "?"
+			}
+			return "/" // fasthttp writes path=/ when none is given
+		}
+		// the path the cookie is issued for
+		issuePath := "?"
+		for _, c := range callsIn(r.Fn("", "(*Redirect).processFlashMessages"), false) {
+			if fl, ok := cookieLit(c.Instr); ok && isFlashName(fl["Name"]) {
+				issuePath = pathOf(fl)
+			}
+		}
+		r.need(issuePath != "?", "processFlashMessages issues the flash cookie with a constant path")
+		expiryPath := "(no expiry)"
 		isExpire := func(in ssa.Instruction) bool {
 			ci, ok := in.(ssa.CallInstruction)
 			if !ok {
 				return false
 			}
 			n := calleeName(ci.Common())
-			if !(strings.HasSuffix(n, "DefaultCtx).ClearCookie") || strings.HasSuffix(n, ".Ctx).ClearCookie")) {
-				return false
-			}
-			// the cookie name flows in through the variadic slice
-			for _, a := range ci.Common().Args {
-				if sl, ok := a.(*ssa.Slice); ok {
-					if al, ok := sl.X.(*ssa.Alloc); ok {
-						for _, st := range storesInto(al) {
-							if s, ok := constString(asConst(st.Val)); ok && s == "fiber_flash" {
-								return true
+			if strings.HasSuffix(n, "DefaultCtx).ClearCookie") || strings.HasSuffix(n, ".Ctx).ClearCookie") {
+				// ClearCookie(name) writes an expiry without a Path attribute
+				for _, a := range ci.Common().Args {
+					if sl, ok := a.(*ssa.Slice); ok {
+						if al, ok := sl.X.(*ssa.Alloc); ok {
+							for _, st := range storesInto(al) {
+								if isFlashName(st.Val) {
+									expiryPath = "(none: ClearCookie writes no Path attribute)"
+								}
 							}
 						}
 					}
 				}
+				return false
 			}
-			return false
+			fl, isLit := cookieLit(ci)
+			if !isLit || !isFlashName(fl["Name"]) {
+				return false
+			}
+			expired := false
+			if v, ok := fl["Expires"]; ok && dependsOn(v, func(x ssa.Value) bool { g, isG := x.(*ssa.Global); return isG && g.Name() == "CookieExpireDelete" }) != nil {
+				expired = true
+			}
+			if v, ok := fl["MaxAge"]; ok {
+				if k, isC := constInt(asConst(v)); isC && k < 0 {
+					expired = true
+				}
+			}
+			if v, ok := fl["Value"]; ok {
+				if str, isC := constString(asConst(v)); !isC || str != "" {
+					expired = false
+				}
+			}
+			if !expired {
+				return false
+			}
+			expiryPath = pathOf(fl)
+			return expiryPath == issuePath
 		}
 		_, hit := reach(entryOf(f), isReturn, cut, isExpire)
-		r.check(len(cut) > 0 && hit == nil, "parseAndClearFlashMessages:expires-cookie", r.fpos(f), "with the error edges removed every path to return calls ClearCookie(FlashCookieName)",
-			"after the flash messages were decoded the fiber_flash cookie is never expired on the response: a conforming client presents it on every later request, so the messages are delivered again and again")
+		r.check(len(cut) > 0 && hit == nil, "parseAndClearFlashMessages:expires-cookie", r.fpos(f), "with the error edges removed every path to return writes an expired fiber_flash cookie with the path it was issued for ("+issuePath+")",
+			"after the flash messages were decoded the fiber_flash cookie is not expired on the path it was issued for (issued with path "+issuePath+", expiry path "+expiryPath+"): a conforming client that requested a URL below a directory files the expiry under that directory and keeps the cookie — or, without any expiry, presents it on every later request — so the messages are delivered again and again")
 	})
 
 	r.rule("R2", "a malformed cookie yields no messages (E1)", func() {
